@@ -10,19 +10,25 @@ From GV Require Import Base.Prelude Lang.Lexer Lang.LexerProps Lang.Ast Lang.Par
 Local Open Scope nat_scope.
 
 (* ---------- suffixes ---------- *)
-Definition suffix (r ts : list sigtok) : Prop := exists pre, ts = pre ++ r.
+(* [suffix r ts]: r is reached from ts by advancing token by token, never onto a lexical error *)
+Inductive suffix (r : list sigtok) : list sigtok -> Prop :=
+| suffix_refl : suffix r r
+| suffix_step t ts : (kind_at ts =? K_LEXERR)%N = false -> suffix r ts -> suffix r (t :: ts).
 
-Lemma suffix_refl ts : suffix ts ts.
-Proof. exists []. reflexivity. Qed.
 Lemma suffix_trans a b c : suffix a b -> suffix b c -> suffix a c.
-Proof. intros [p ->] [q ->]. exists (q ++ p). now rewrite app_assoc. Qed.
-Lemma suffix_cons t ts : suffix ts (t :: ts).
-Proof. exists [t]. reflexivity. Qed.
+Proof. intros H1 H2. induction H2 as [|t ts Hk H2 IH]; [exact H1|]. apply suffix_step; assumption. Qed.
+Lemma suffix_cons t ts : (kind_at ts =? K_LEXERR)%N = false -> suffix ts (t :: ts).
+Proof. intros H. apply suffix_step; [exact H|apply suffix_refl]. Qed.
+Lemma suffix_app r ts : suffix r ts -> exists pre, ts = pre ++ r.
+Proof.
+  induction 1 as [|t ts Hk H [pre ->]]; [exists []; reflexivity|]. exists (t :: pre). reflexivity.
+Qed.
 Lemma suffix_length r ts : suffix r ts -> length r <= length ts.
-Proof. intros [p ->]. rewrite app_length. lia. Qed.
+Proof. intros H. apply suffix_app in H as [p ->]. rewrite app_length. lia. Qed.
 Lemma suffix_same_length r ts : suffix r ts -> length r = length ts -> r = ts.
 Proof.
-  intros [p ->] H. rewrite app_length in H. destruct p; [reflexivity|cbn in H; lia].
+  intros H E. apply suffix_app in H as [p ->]. rewrite app_length in E.
+  destruct p; [reflexivity|cbn in E; lia].
 Qed.
 
 (* ---------- the state is within the token limit ---------- *)
@@ -155,8 +161,8 @@ Proof.
     destruct (kind_at r =? K_LEXERR)%N; [discriminate|]. destruct (over fl r); discriminate.
   - destruct ts as [|t r0]; [inversion H0; subst; apply suffix_refl|].
     destruct (fst t =? K_EOF)%N; [inversion H0; subst; apply suffix_refl|].
-    destruct (kind_at r0 =? K_LEXERR)%N; [discriminate|]. destruct (over fl r0); [discriminate|].
-    inversion H0; subst. apply suffix_cons.
+    destruct (kind_at r0 =? K_LEXERR)%N eqn:Ek; [discriminate|]. destruct (over fl r0); [discriminate|].
+    inversion H0; subst. apply suffix_cons. exact Ek.
   - destruct ts as [|t r]; [discriminate|]. destruct (fst t =? K_EOF)%N; [discriminate|].
     destruct (kind_at r =? K_LEXERR)%N; [inversion H0; cbn; lia|].
     destruct (over fl r); [inversion H0; cbn; lia|discriminate].
@@ -1066,4 +1072,106 @@ Proof.
   unfold parse_text.
   destruct (token_stream_total (match e with ECoordinate => true | _ => false end) s) as [ts ->].
   cbn [obind]. apply parse_entry_total.
+Qed.
+
+(* ---------- the lazy token stream and the strict lexer ---------- *)
+Lemma lazy_loop_lex fuel : forall cu s,
+  match lex_loop fuel cu s with
+  | Ok ts => lazy_loop read_token fuel cu s = (significant ts, LEnd)
+  | SyntaxErr q => exists pre, lazy_loop read_token fuel cu s = (pre, LErr q)
+  | Crash w => exists pre, lazy_loop read_token fuel cu s = (pre, LCrash w)
+  | OutOfFuel => exists pre, lazy_loop read_token fuel cu s = (pre, LFuel)
+  end.
+Proof.
+  induction fuel as [|f IH]; intros cu s; [cbn; eauto|].
+  cbn [lex_loop lazy_loop].
+  destruct (read_token cu s) as [[[tk cu'] s']|q|w|]; [|eauto|eauto|eauto].
+  destruct (tkind tk =? K_EOF)%N eqn:Ek.
+  - cbn [significant filter]. apply N.eqb_eq in Ek. rewrite Ek. reflexivity.
+  - specialize (IH cu' s'). destruct (lex_loop f cu' s') as [ts|q|w|].
+    + rewrite IH. cbn [significant filter]. destruct (tkind tk =? K_COMMENT)%N; reflexivity.
+    + destruct IH as [pre ->]. eauto.
+    + destruct IH as [pre ->]. eauto.
+    + destruct IH as [pre ->]. eauto.
+Qed.
+
+Theorem token_stream_lex_ok s ts : lex s = Ok ts -> token_stream false s = Ok (significant ts).
+Proof.
+  unfold lex, token_stream. intros H.
+  pose proof (lazy_loop_lex (S (length s)) init_cursor s) as L. rewrite H in L. rewrite L. reflexivity.
+Qed.
+
+Theorem token_stream_lex_err s q : lex s = SyntaxErr q ->
+  exists pre, token_stream false s = Ok (pre ++ [err_token q]).
+Proof.
+  unfold lex, token_stream. intros H.
+  pose proof (lazy_loop_lex (S (length s)) init_cursor s) as L. rewrite H in L.
+  destruct L as [pre ->]. eauto.
+Qed.
+
+(* for a source that lexes, parsing the text is parsing its significant tokens *)
+Theorem parse_text_lex e o s ts : e <> ECoordinate -> lex s = Ok ts ->
+  parse_text e o s = parse_entry e o (significant ts).
+Proof.
+  intros He H. unfold parse_text.
+  replace (match e with ECoordinate => true | _ => false end) with false by (destruct e; congruence).
+  rewrite (token_stream_lex_ok s ts H). reflexivity.
+Qed.
+
+(* ---------- sources that do not lex are rejected ---------- *)
+Lemma lazy_loop_no_eof rd fuel : forall cu s pre q,
+  lazy_loop rd fuel cu s = (pre, LErr q) -> Forall (fun t => (tkind t =? K_EOF)%N = false) pre.
+Proof.
+  induction fuel as [|f IH]; intros cu s pre q; [discriminate|].
+  cbn [lazy_loop]. destruct (rd cu s) as [[[tk cu'] s']|q'|w|]; try discriminate.
+  - destruct (tkind tk =? K_EOF)%N eqn:Ek; [discriminate|].
+    destruct (lazy_loop rd f cu' s') as [ts e] eqn:E. intros H; inversion H; subst.
+    specialize (IH _ _ _ _ E). destruct (tkind tk =? K_COMMENT)%N; [exact IH|constructor; assumption].
+  - intros H; inversion H; subst. constructor.
+Qed.
+
+Lemma suffix_before_lexerr r ts : suffix r ts ->
+  forall l e, ts = l ++ [e] -> l <> [] -> fst e = K_LEXERR ->
+  Forall (fun t => (fst t =? K_EOF)%N = false) l -> (kind_at r =? K_EOF)%N = false.
+Proof.
+  induction 1 as [|t ts Hk H IH]; intros l e E Hl He Hall.
+  - subst r. destruct l as [|t l']; [congruence|]. inversion Hall; subst. assumption.
+  - destruct l as [|t' l']; [congruence|]. inversion E; subst. inversion Hall; subst.
+    destruct l' as [|t2 l2].
+    + cbn in Hk. unfold kind_at in Hk. cbn in Hk. rewrite He in Hk. discriminate.
+    + apply (IH (t2 :: l2) e eq_refl); [discriminate|exact He|assumption].
+Qed.
+
+Theorem parse_entry_lexerr e o pre q :
+  Forall (fun t => (tkind t =? K_EOF)%N = false) pre ->
+  exists p, parse_entry e o (pre ++ [err_token q]) = SyntaxErr p.
+Proof.
+  intros Hpre.
+  destruct (parse_entry_total e o (pre ++ [err_token q])) as [(d & c & E)|[p E]]; [|eauto].
+  exfalso. unfold parse_entry in E.
+  set (s := map sig (pre ++ [err_token q])) in *.
+  destruct (core e (floor_of o (length s)) (exp_fragment_arguments o)
+                 (exp_directives_on_directive_definitions o) (sof_tok :: s)) as [d0 r|x|] eqn:Ec; try discriminate.
+  pose proof (core_eof_state _ _ _ _ _ _ _ Ec) as Hk.
+  destruct (gd_core e (exp_fragment_arguments o) (exp_directives_on_directive_definitions o)
+                    (length (sof_tok :: s))) as [G _].
+  pose proof (g_suf _ _ G _ _ _ _ (le_n _) Ec) as Sf.
+  assert (Hne : (kind_at r =? K_EOF)%N = false).
+  { apply (suffix_before_lexerr r (sof_tok :: s) Sf (sof_tok :: map sig pre) (sig (err_token q))).
+    - unfold s. rewrite map_app. reflexivity.
+    - discriminate.
+    - reflexivity.
+    - constructor; [reflexivity|]. clear -Hpre. induction Hpre; constructor; assumption. }
+  rewrite Hk in Hne. discriminate.
+Qed.
+
+Theorem parse_text_unlexable e o s q : e <> ECoordinate -> lex s = SyntaxErr q ->
+  exists p, parse_text e o s = SyntaxErr p.
+Proof.
+  intros He H. unfold parse_text.
+  replace (match e with ECoordinate => true | _ => false end) with false by (destruct e; congruence).
+  unfold token_stream. unfold lex in H.
+  pose proof (lazy_loop_lex (S (length s)) init_cursor s) as L. rewrite H in L. destruct L as [pre L].
+  rewrite L. cbn [obind]. apply parse_entry_lexerr.
+  eapply lazy_loop_no_eof. exact L.
 Qed.
